@@ -248,9 +248,28 @@ def run(chk: Check, only_numeric: bool = False) -> None:
         else:
             r2.ok(key2, where, f"C returns {sorted(rets)[:4]}")
     chk.extra["macro_bound"] = n_macro
+    # ---- error value overlap
+    r7 = chk.rule("R05.7" if not only_numeric else "R15.5", "a primitive whose result type has no spare value to signal an error (RPrimitive(..., error_overlap=True): fixed-width native ints, float) never declares ERR_MAGIC: the error value of such a type (-113, -113.0) is also a legal result, so the generated code must confirm with PyErr_Occurred() (ERR_MAGIC_OVERLAPPING) or the C function must not fail (ERR_NEVER); with plain ERR_MAGIC `x % y == -113` branches to the error handler with no exception set", floor=45 if not only_numeric else 45)
+    rt = ix.module("mypyc.ir.rtypes")
+    overlap = {nm for nm, v in rt.assigns.items() if isinstance(v, ast.Call) and isinstance(v.func, ast.Name) and v.func.id == "RPrimitive" and any(k.arg == "error_overlap" and isinstance(k.value, ast.Constant) and k.value.value is True for k in v.keywords)}
+    if len(overlap) < 6:
+        raise AnalysisError(f"only {sorted(overlap)} RPrimitives with error_overlap=True found")
+    for m, n, kw, cname in sites:
+        ret, ek = kw.get("return_type"), kw.get("error_kind")
+        if not isinstance(ret, ast.Name) or ret.id not in overlap or ek is None:
+            continue
+        key = f"{m.name}: {cname} -> {ret.id} error_kind {norm(ek)} [{call_label(kw)}]"
+        where = f"{m.relpath}:{n.lineno}"
+        if norm(ek) == "ERR_MAGIC":
+            r7.violation(key, where, f"{ret.id} has error_overlap=True (its error value is a legal result) but the primitive declares ERR_MAGIC: a result equal to the error value is treated as a failure without an exception being set (crash in CPy_AddTraceback / wrong exception)")
+        elif norm(ek) in ("ERR_MAGIC_OVERLAPPING", "ERR_NEVER"):
+            r7.ok(key, where)
+        else:
+            r7.violation(key, where, f"error kind {norm(ek)} is not meaningful for a result of type {ret.id}")
     if not only_numeric:
         run_inplace(chk, ix, funcs, sites)
         run_coerce(chk, ix)
+        run_env_link(chk, ix)
         pass_order(chk, ix)
 
 
@@ -405,3 +424,65 @@ def run_coerce(chk: Check, ix) -> None:
             r5.ok(key, f.loc())
         else:
             r5.violation(key, f.loc(), f"this combination takes the `{got}` arm: " + ("a value is passed on unchanged across a representation boundary or to a type it is not known to have, without the runtime check (a wrong-typed object reaches native code)" if got == "noop" else "the conversion for this combination changed"))
+
+
+def _attrs(e: ast.AST) -> set[str]:
+    return {n.attr for n in ast.walk(e) if isinstance(n, ast.Attribute)}
+
+
+def run_env_link(chk: Check, ix) -> None:
+    """R05.6: the link from a nested function's environment to the enclosing one survives completion whenever it can still be followed."""
+    from ..cfg import branch_conditions
+    r6 = chk.rule("R05.6", "setup_env_class exempts the __mypyc_env__ link of a nested function's environment from clear_on_completion on a condition that consults only what decides whether a function nested deeper will follow that link (load_outer_envs follows it for every enclosing level that has an environment class; FuncInfo.contains_nested as gen_func_item defines it), positively and as a conjunction: a stricter test (say, only when a local of this function is captured) drops the link when a generator finishes while an inner closure that reads a variable two levels up is still callable, and CPython's closure cell would still be alive", floor=4)
+    f = ix.func("mypyc.irbuild.env_class.setup_env_class")
+    par = f.module.parents()
+
+    def stmt_of(n):
+        while not isinstance(n, ast.stmt):
+            n = par[n]
+        return n
+    adds = [c for c in ast.walk(f.node) if isinstance(c, ast.Call) and isinstance(c.func, ast.Attribute) and c.func.attr == "add" and isinstance(c.func.value, ast.Attribute) and c.func.value.attr == "attrs_to_keep_alive_on_completion" and c.args and norm(c.args[0]) == "ENV_ATTR_NAME"]
+    stores = [s for s in ast.walk(f.node) if isinstance(s, ast.Assign) and isinstance(s.targets[0], ast.Subscript) and norm(s.targets[0].slice) == "ENV_ATTR_NAME" and isinstance(s.targets[0].value, ast.Attribute) and s.targets[0].value.attr == "attributes"]
+    if len(stores) != 1:
+        raise AnalysisError(f"setup_env_class: expected one store of attributes[ENV_ATTR_NAME], found {len(stores)}")
+    key = "the environment link is exempted from clearing on completion"
+    if not adds:
+        r6.violation(key, f.loc(stores[0]), "attrs_to_keep_alive_on_completion never receives ENV_ATTR_NAME: the link is cleared when a nested generator finishes although closures created in it still follow it")
+        return
+    r6.ok(key, f.loc(adds[0]))
+    # what the traversal and the definition of contains_nested consult
+    trav = ix.func("mypyc.irbuild.env_class.load_outer_envs")
+    trav_attrs: set[str] = set()
+    for n in ast.walk(trav.node):
+        if isinstance(n, (ast.If, ast.While)):
+            trav_attrs |= _attrs(n.test)
+        elif isinstance(n, ast.Assign) and any(isinstance(t, ast.Name) for t in n.targets):
+            trav_attrs |= _attrs(n.value) & {"contains_nested", "_env_class", "fn_infos", "builders", "is_nested"}
+    gfi = ix.func("mypyc.irbuild.function.gen_func_item")
+    defs = [n for n in ast.walk(gfi.node) if isinstance(n, ast.Assign) and len(n.targets) == 1 and norm(n.targets[0]) == "contains_nested"]
+    if len(defs) != 1 or "contains_nested" not in trav_attrs:
+        raise AnalysisError("the definition of contains_nested in gen_func_item / its use in load_outer_envs was not found")
+    allowed = trav_attrs | _attrs(defs[0].value) | {"fn_info", "fitem", "keys"}
+    r6.ok(f"load_outer_envs decides whether to follow a link from {sorted(trav_attrs)} only", trav.loc())
+    r6.ok(f"contains_nested := {norm(defs[0].value)}", gfi.loc(defs[0]))
+    base_pos, base_neg = branch_conditions(par, f.node, stores[0])
+    bp, bn = {norm(t) for t in base_pos}, {norm(t) for t in base_neg}
+    for c in adds:
+        pos, neg = branch_conditions(par, f.node, stmt_of(c))
+        extra_pos = [t for t in pos if norm(t) not in bp]
+        extra_neg = [t for t in neg if norm(t) not in bn]
+        key = "the exemption is conditional only on the function containing a nested function"
+        bad = []
+        for t in extra_neg:
+            bad.append(f"taken when `{norm(t)}` is false")
+        for t in extra_pos:
+            atoms = t.values if isinstance(t, ast.BoolOp) and isinstance(t.op, ast.And) else [t]
+            for a in atoms:
+                if isinstance(a, (ast.BoolOp, ast.UnaryOp)):
+                    bad.append(f"`{norm(a)}` is not a positive atom")
+                elif not _attrs(a) <= allowed:
+                    bad.append(f"`{norm(a)}` consults {sorted(_attrs(a) - allowed)}, which the code that follows the link does not: a nested function follows the link whether or not that holds")
+        if bad:
+            r6.violation(key, f.loc(c), "; ".join(bad))
+        else:
+            r6.ok(key, f.loc(c), "guard: " + (" and ".join(norm(t) for t in extra_pos) or "none"))
